@@ -1,5 +1,5 @@
 SPECIFICATION Spec
-CONSTANT AlphaSel = "A"
+CONSTANT AlphaSel = "B"
 CONSTANT StepBound = 60
 CONSTANT MaxToks = 4
 INVARIANT StatusOK
